@@ -141,11 +141,7 @@ impl<const N: usize> AEADCipherCodec<N> {
         dst.put_u64(aead_2022::now()?);
         dst.put_u64(session.client_session_id);
         dst.put_u16(padding_length);
-        if padding_length > 0 {
-            unsafe {
-                dst.advance_mut(padding_length as usize);
-            }
-        }
+        dst.extend_from_slice(&dice::roll_bytes(padding_length as usize));
         address::encode(address, dst);
         dst.extend_from_slice(&item);
         unsafe { dst.advance_mut(tag_size) };
@@ -240,7 +236,8 @@ impl<const N: usize> AEADCipherCodec<N> {
 
         let nonce_length = udp::nonce_length(self.kind);
         let tag_size = self.kind.tag_size();
-        let header_length = nonce_length + tag_size + 8 + 8 + 1 + 8 + 2;
+        // session id, packet id, type, timestamp, client session id, padding length
+        let header_length = nonce_length + tag_size + 8 + 8 + 1 + 8 + 8 + 2;
         if src.remaining() < header_length {
             bail!("packet too short, at least {} bytes, but found {} bytes", header_length, src.remaining());
         }
@@ -255,6 +252,9 @@ impl<const N: usize> AEADCipherCodec<N> {
         aead_2022::validate_timestamp(packet.get_u64()).map_err(anyhow::Error::msg)?;
         let client_session_id = packet.get_u64();
         let padding_length = packet.get_u16();
+        if packet.remaining() < padding_length as usize {
+            bail!("packet too short, padding length {} exceeds {} remaining bytes", padding_length, packet.remaining());
+        }
         if padding_length > 0 {
             packet.advance(padding_length as usize);
         }
@@ -327,6 +327,9 @@ impl<const N: usize> AEADCipherCodec<N> {
         }
         aead_2022::validate_timestamp(packet.get_u64()).map_err(anyhow::Error::msg)?;
         let padding_length = packet.get_u16();
+        if packet.remaining() < padding_length as usize {
+            bail!("packet too short, padding length {} exceeds {} remaining bytes", padding_length, packet.remaining());
+        }
         if padding_length > 0 {
             packet.advance(padding_length as usize);
         }
